@@ -31,6 +31,10 @@ type Obligation struct {
 	StaticOK bool
 	Note    string
 	altPCs  [][]*Term
+	parts   []string
+	PCUsing []*Term // path condition with the quantified assumptions not named in the clause's using-list hidden
+	queryU  string
+	partsU  []string
 }
 
 type unsupported struct{ msg string }
@@ -80,6 +84,18 @@ func (v *Verifier) oblige(st *State, kind, label string, goal *Term, p token.Pos
 	if cl != nil && len(cl.Props) > 0 {
 		ob.Props = cl.Props
 	}
+	if cl != nil && len(cl.Using) > 0 {
+		keep := map[string]bool{}
+		for _, u := range cl.Using {
+			keep[u] = true
+		}
+		for _, t := range ob.PC {
+			if tag, ok := st.qtag[t.String()]; ok && !keep[tag] {
+				continue
+			}
+			ob.PCUsing = append(ob.PCUsing, t)
+		}
+	}
 	v.obs = append(v.obs, ob)
 }
 
@@ -128,8 +144,12 @@ func (v *Verifier) Run() (err error) {
 	if v.fc != nil {
 		env := v.entryEnv(st)
 		for _, cl := range append(append([]*Clause{}, v.fc.Requires...), v.fc.Assumes...) {
+			v.markHeld(st, env, cl.Expr)
 			t := v.evalBool(st, env, cl)
-			st.assume(t)
+			st.assumeTagged(t, cl.Label)
+		}
+		if len(st.held) > 0 {
+			st.acq = st.snapshot()
 		}
 	}
 	v.enterBlock(st, nil, fn.Blocks[0])
@@ -464,7 +484,7 @@ func (v *Verifier) doAlloc(st *State, a *ssa.Alloc) {
 		fr.regs[a] = Value{T: a.Type(), cell: &cellRef{alloc: a, off: 0, typ: elem}}
 		return
 	}
-	blk := st.allocBlock()
+	blk := st.allocTyped(elem)
 	st.storeAt(blk, IntLit(0), v.e.zeroValue(elem))
 	st.nonnil[blk.String()] = true
 	fr.regs[a] = Value{T: a.Type(), L: []*Term{blk, IntLit(0)}}
@@ -852,14 +872,14 @@ func (v *Verifier) convert(st *State, x Value, from, to types.Type, p token.Pos)
 			st.assume(Ge(n, IntLit(0)))
 			// contents: bytes of the string
 			i := v.e.sy.Fresh("i", SInt)
-			inner := Select(st.memOf(KI), blk)
+			inner := Select(st.memOf(KY), blk)
 			st.assume(Forall([]*Term{i}, Implies(And(Ge(i, IntLit(0)), Lt(i, n)), Eq(mk("select", SInt, inner, i), v.e.sy.App("str_at", SInt, x.L[0], i)))))
 			return Value{T: to, L: []*Term{blk, IntLit(0), n, n}}
 		}
 	}
 	if tok && tb.Info()&types.IsString != 0 {
 		if _, ok := fu.(*types.Slice); ok {
-			inner := Select(st.memOf(KI), x.L[0])
+			inner := Select(st.memOf(KY), x.L[0])
 			r := v.e.sy.App("str_of_bytes", SStr, inner, x.L[1], x.L[2])
 			st.assume(Eq(v.e.strLen(r), x.L[2]))
 			return Value{T: to, L: []*Term{r}}
@@ -1023,8 +1043,8 @@ func (v *Verifier) doMakeSlice(st *State, m *ssa.MakeSlice) {
 	c := v.eval(st, m.Cap).L[0]
 	v.oblige(st, "slice", "make len/cap", And(Le(IntLit(0), n), Le(n, c)), m.Pos(), nil)
 	st.assume(And(Le(IntLit(0), n), Le(n, c)))
-	blk := st.allocBlock()
 	elem := m.Type().Underlying().(*types.Slice).Elem()
+	blk := st.allocTyped(types.NewSlice(elem))
 	v.zeroBlock(st, blk, elem)
 	st.nonnil[blk.String()] = true
 	v.setReg(st, m, Value{T: m.Type(), L: []*Term{blk, IntLit(0), n, c}})
@@ -1037,7 +1057,7 @@ func (v *Verifier) zeroBlock(st *State, blk *Term, elem types.Type) {
 	for _, sl := range lay {
 		kinds[sl.K] = true
 	}
-	for _, k := range []Kind{KI, KB, KS} {
+	for _, k := range []Kind{KI, KB, KS, KY} {
 		if !kinds[k] {
 			continue
 		}
@@ -1230,3 +1250,31 @@ func (v *Verifier) doReturn(st *State, r *ssa.Return) {
 	v.endPath(st, r, true)
 }
 
+
+// markHeld: a top-level conjunct held(mu) in a requires clause of the function
+// under proof establishes that the lock is held at entry.
+func (v *Verifier) markHeld(st *State, env *Env, e CExpr) {
+	switch e := e.(type) {
+	case CBinary:
+		if e.Op == "&&" {
+			v.markHeld(st, env, e.X)
+			v.markHeld(st, env, e.Y)
+		}
+	case CCall:
+		if e.Fun == "held" && len(e.Args) == 1 {
+			func() {
+				defer func() {
+					if r := recover(); r != nil {
+						if _, ok := r.(cevalError); ok {
+							return
+						}
+						panic(r)
+					}
+				}()
+				env.fnFrame = st.frames[0]
+				loc := env.loc(st, e.Args[0])
+				st.held[lockKey(Value{L: []*Term{loc.blk, loc.off}})] = true
+			}()
+		}
+	}
+}
